@@ -130,9 +130,9 @@ def gen_op(r: random.Random, idx: int) -> dict:
         loc = r.choice(["query", "query", "query", "header", "header", "cookie"] + (["formData"] if r.random() < 0.1 else []))
         pool = {"query": QNAMES, "header": HNAMES, "cookie": CNAMES, "formData": QNAMES}[loc]
         name = r.choice(pool) if r.random() > 0.04 else r.choice(ODD_NAMES)
-        # header (and query) parameters of every primitive type: an integer / number / boolean header goes on the wire as str(value)
+        # header, cookie (and query) parameters of every primitive type: an integer / number / boolean header or cookie goes on the wire as str(value)
         # (F39 repaired; a recurrence is a TypeError where the model predicts a request)
-        kind = r.choice(["string", "string", "integer"]) if loc not in ("header", "query") else r.choice(["string", "string", "string", "integer", "boolean", "number"])
+        kind = r.choice(["string", "string", "integer"]) if loc not in ("header", "query", "cookie") else r.choice(["string", "string", "string", "integer", "boolean", "number"])
         params.append({"name": name, "in": loc, "required": r.random() < 0.35, "kind": kind})
     if path_level and r.random() < 0.12:
         # operation-level override of a path-level parameter (same name, same `in`; F4 repaired: ONE argument, the operation-level one)
@@ -371,7 +371,9 @@ def expected_request(req: dict) -> dict:
     path = "".join(p["lit"] if "lit" in p else render(p["val"]) for p in req["path"])
     q = sorted((k, "" if v["t"] == "none" else v["v"]) for k, v in (req["query"] or []))
     h = sorted((k.lower(), render(v)) for k, v in (req["headers"] or []))
-    return {"method": req["method"], "path": path, "query": [list(x) for x in q], "headers": [list(x) for x in h],
+    # `cookies={name: value}`: one `name=value` pair of the Cookie header each (a None value is written as the bare name)
+    c = sorted((k, None if v["t"] == "none" else v["v"]) for k, v in (req.get("cookies") or []))
+    return {"method": req["method"], "path": path, "query": [list(x) for x in q], "headers": [list(x) for x in h], "cookies": [list(x) for x in c],
             "body": [req["body"]["kw"], render(req["body"]["v"]) if req["body"]["kw"] != "none" else None]}
 
 
@@ -384,7 +386,9 @@ def observed_request(rq: dict, wire: dict) -> dict:
     if path.startswith("/api"):
         path = path[len("/api"):]
     q = sorted((k, v) for k, v in rq["query"])
-    h = sorted((k.lower(), v) for k, v in rq["headers"] if k.lower() not in DEFAULT_HEADERS)
+    h = sorted((k.lower(), v) for k, v in rq["headers"] if k.lower() not in DEFAULT_HEADERS and k.lower() != "cookie")
+    cookies = sorted(tuple(x.strip().split("=", 1)) if "=" in x else (x.strip(), None)
+                     for k, v in rq["headers"] if k.lower() == "cookie" for x in v.split(";") if x.strip())
     ctype = next((v for k, v in rq["headers"] if k.lower() == "content-type"), None)
     content = base64.b64decode(rq.get("content_b64") or "")
     # which caller value is in the body: find the token
@@ -413,11 +417,12 @@ def observed_request(rq: dict, wire: dict) -> dict:
         else:
             tok = content.decode("latin-1")
         body = [kw, tok]
-    return {"method": rq["method"], "path": path, "query": [list(x) for x in q], "headers": [list(x) for x in h], "body": body}
+    return {"method": rq["method"], "path": path, "query": [list(x) for x in q], "headers": [list(x) for x in h], "cookies": [list(x) for x in cookies],
+            "body": body}
 
 
 ERR_TYPES = {"typeError": ["TypeError"], "nameError": ["NameError", "UnboundLocalError"], "valueError": ["ValueError"],
-             "headerTypeError": ["TypeError"], "moduleError": ["SyntaxError", "ImportError", "ModuleNotFoundError", "IndentationError"]}
+             "headerTypeError": ["TypeError"], "cookieTypeError": ["TypeError"], "moduleError": ["SyntaxError", "ImportError", "ModuleNotFoundError", "IndentationError"]}
 
 
 def expected_outcome(pred: dict) -> dict:
@@ -708,12 +713,12 @@ def _run(seed: int, scale: float, driver: str, e2e) -> dict:
     return {"comparisons": comparisons, "disagreements": [d for d in disagreements if d is not None][:50], "disagreement_count": n_dis,
             "nontrivial": len(nontrivial),
             "rule": ("random operation shapes (8 HTTP methods; path/query/header/cookie/other parameters at path level and operation level, required "
-                     "or optional, string or integer (header and query parameters also number and boolean); undeclared and repeated path variables; name collisions; no / one of 7 / 2-3 of 5 request media "
+                     "or optional, string or integer (header, cookie and query parameters also number and boolean); undeclared and repeated path variables; name collisions; no / one of 7 / 2-3 of 5 request media "
                      "types; responses drawn from 2xx, 4xx, 5xx, 1xx/3xx/600, 2XX-style and default keys with none, one or several media types of 6 "
                      "schema shapes) -> document -> real generator -> emitted client called in a fresh interpreter with seeded keyword "
                      "assignments (all / some optionals / a required one dropped / an unknown keyword) and a fake server answering every "
                      "declared status plus 8 statuses sampled from 100..599 through the bundled and a pass-through transport; captured "
-                     "request (method, path, sorted query, sorted non-default headers, body keyword + which value) and outcome (returned "
+                     "request (method, path, sorted query, sorted non-default headers, sorted cookies, body keyword + which value) and outcome (returned "
                      "kind | exception class, ClientError/ServerError membership, status, response, arm) compared with buildRequest / handle. "
                      "Non-trivial: a request comparison with at least one argument, or an outcome other than the catch-all 'Unhandled status code'; "
                      "distinct by (op, args) resp. (op, reply, transport)"),
